@@ -6,20 +6,25 @@
     semantics the ledger model assumes; the drop ledger of the real types is compared with
     the model on every run.
 
-    NOT YET PROVED (stated here so that the gap is visible):
-    - the multi-object history theorem: for every op sequence of Ledger.run over consumers,
-      builders AND their clones (incl. a panicking T::clone) that ends in drop_all, every
-      identity ever created (initial, pushed, cloned) occurs exactly once among Hand/Drop
-      events, and clone ids are fresh.  Proved below: the single-consumer form (every
-      front/back history followed by drop) and the builder forms (C11); clone
-      (c_clone / b_clone) is covered by the correspondence run only.
-    - map_by_val on the non-completing paths (break / continue / return / panic): the
-      exact accounting "every input identity is handed or dropped exactly once unless it is
-      in the leak list, which is non-empty only after break" is checked by the
-      correspondence run (all outcome scripts up to length 5/6) but not proved; proved:
-      no UB, no divergence, return does not leak, and the completing path. *)
+    Proved since the first version (Proofs/LedgerHistoryProofs.v), formerly listed here as
+    NOT YET PROVED:
+    - the multi-object history theorem, in full generality (any number of consumers,
+      builders and clones of either, incl. a panicking T::clone, any op sequence of
+      Ledger.run from any well-formed table, ending in drop_all): C15_history_* below.
+      The ledger has no event for a push and none for mem::forget of a whole object, so the
+      statement names both by replaying the history: [pushed w0 ops] are the identities
+      created by pushes, [leaked w0 ops] those owned by an object at the moment an explicit
+      OForget is applied to it.  Exactly-once is: (Hand/Drop identities ++ leaked) is a
+      permutation of (initial ++ pushed ++ cloned), which has no duplicates; without
+      OForget nothing is leaked.
+    - map_by_val on the non-completing paths: C15_map_by_val_accounting,
+      C15_map_by_val_leak_only_after_break, C15_map_by_val_inputs_exactly_once.
+      The same for from_fn_! (inputs not in the ledger): C15_from_fn_by_val_accounting.
+    NOT YET PROVED: nothing that this file states; what stays outside any Coq statement is
+    the "partial by nature" part above. *)
+From Coq Require Import Permutation.
 From KV Require Import Base.Prelude Model.Ledger Model.Destructure
-  Proofs.LedgerProofs Proofs.DestructureProofs.
+  Proofs.LedgerProofs Proofs.DestructureProofs Proofs.LedgerHistoryProofs.
 Local Open Scope nat_scope.
 
 (** consumer_inv: the invariant "exactly the slots [taken_front, N - taken_back) are live"
@@ -86,6 +91,153 @@ Theorem C15_map_by_val_completed : forall clo ids,
   end.
 Proof. exact map_by_val_built. Qed.
 
+(** history (multi-object): [world_ok] — every object of the table satisfies its
+    representation invariant, no identity is owned twice, every owned identity is below the
+    fresh-identity counter — holds of the initial tables, is preserved by EVERY op on any
+    object (consumer, builder, clone of either; clone with or without a panicking
+    T::clone), and no op is UB.  [step_post] is the per-step accounting:
+      owned before + created by the step = handed/dropped by the step + owned after + leaked,
+      created by the step = its clone identities + its push identity,
+      its clone identities are fresh, and the sources of its clones are owned by the table. *)
+Theorem C15_history_initial_consumer : forall ids n,
+  NoDup ids -> (forall i, In i ids -> (i < n)%Z) -> world_ok (mkW [OC (c_new ids)] n).
+Proof. exact world_ok_consumer. Qed.
+Theorem C15_history_initial_empty_consumer : forall N n, world_ok (mkW [OC (c_empty N)] n).
+Proof. exact world_ok_empty_consumer. Qed.
+Theorem C15_history_initial_builder : forall N n, world_ok (mkW [OB (b_new N)] n).
+Proof. exact world_ok_builder. Qed.
+Theorem C15_history_step_invariant : forall w o, world_ok w ->
+  match step w o with
+  | StepUB => False
+  | StepInvalid => True
+  | StepOk w' _ ev => world_ok w' /\ step_post w o w' ev
+  end.
+Proof. exact step_preserves. Qed.
+
+(** no history reads a moved-out or unwritten slot; the final drop of everything that is
+    still alive destroys exactly what the table owns *)
+Theorem C15_history_no_ub : forall ops w0, world_ok w0 ->
+  run w0 ops <> RunUB /\
+  forall w os, run w0 ops = RunOk w os ->
+    world_ok w /\ drop_all (w_objs w) = Some (map Drop (world_ids w)).
+Proof. exact history_no_ub. Qed.
+
+(** history_exactly_once: for every op sequence over the whole table that ends in dropping
+    everything, the identities ever created — initial, pushed, cloned — are pairwise
+    distinct, and the Hand/Drop events (plus what an explicit forget of an object leaked)
+    are a permutation of them: each occurs exactly once, nothing else occurs *)
+Theorem C15_history_created_distinct : forall w0 w ops os fin,
+  world_ok w0 -> run w0 ops = RunOk w os -> drop_all (w_objs w) = Some fin ->
+  NoDup (world_ids w0 ++ pushed w0 ops ++ cloned (all_events os fin)).
+Proof. exact history_created_distinct. Qed.
+Theorem C15_history_exactly_once : forall w0 w ops os fin,
+  world_ok w0 -> run w0 ops = RunOk w os -> drop_all (w_objs w) = Some fin ->
+  Permutation (accounted (all_events os fin) ++ leaked w0 ops)
+              (world_ids w0 ++ pushed w0 ops ++ cloned (all_events os fin)).
+Proof. exact history_exactly_once. Qed.
+Theorem C15_history_exactly_once_count : forall w0 w ops os fin,
+  world_ok w0 -> run w0 ops = RunOk w os -> drop_all (w_objs w) = Some fin ->
+  forall i,
+    (In i (world_ids w0 ++ pushed w0 ops ++ cloned (all_events os fin)) ->
+       occ (accounted (all_events os fin)) i + occ (leaked w0 ops) i = 1) /\
+    (~ In i (world_ids w0 ++ pushed w0 ops ++ cloned (all_events os fin)) ->
+       occ (accounted (all_events os fin)) i + occ (leaked w0 ops) i = 0).
+Proof. exact history_exactly_once_count. Qed.
+Theorem C15_history_exactly_once_no_forget : forall w0 w ops os fin,
+  world_ok w0 -> run w0 ops = RunOk w os -> drop_all (w_objs w) = Some fin ->
+  (forall k, ~ In (OForget k) ops) ->
+  leaked w0 ops = [] /\ NoDup (accounted (all_events os fin)) /\
+  Permutation (accounted (all_events os fin))
+              (world_ids w0 ++ pushed w0 ops ++ cloned (all_events os fin)).
+Proof. exact history_exactly_once_no_forget. Qed.
+
+(** clone_ids_fresh: the identity a T::clone returns was taken from the counter, is none of
+    the initial or pushed identities, and was not handed over, dropped or returned by
+    another clone earlier (or later) in the history *)
+Theorem C15_history_clone_ids_fresh : forall w0 w ops os fin,
+  world_ok w0 -> run w0 ops = RunOk w os -> drop_all (w_objs w) = Some fin ->
+  forall pre s n post, all_events os fin = pre ++ Cl s n :: post ->
+    (w_next w0 <= n < w_next w)%Z /\
+    ~ In n (world_ids w0) /\ ~ In n (pushed w0 ops) /\
+    ~ In n (accounted pre) /\ ~ In n (cloned pre) /\ ~ In n (cloned post).
+Proof. exact history_clone_ids_fresh. Qed.
+
+(** clone_sources_live: the element a T::clone is called on is an identity created earlier
+    in the history (initial, pushed, or returned by an earlier clone) that has not been
+    handed over or dropped before the call, and it differs from the identity returned *)
+Theorem C15_history_clone_sources_live : forall w0 w ops os fin,
+  world_ok w0 -> run w0 ops = RunOk w os -> drop_all (w_objs w) = Some fin ->
+  forall pre s n post, all_events os fin = pre ++ Cl s n :: post ->
+    In s (world_ids w0 ++ pushed w0 ops ++ cloned pre) /\ ~ In s (accounted pre) /\ (s < n)%Z.
+Proof. exact history_clone_sources_live. Qed.
+
+(** the hypotheses are satisfiable: a consumer, its clone, and a clone of the clone whose
+    second T::clone panics (the first cloned identity, 6, is dropped by the unwinding) *)
+Example C15_history_satisfiable :
+  let w0 := mkW [OC (c_new [1; 2; 3]%Z)] 4 in
+  let ops := [ONext 0; OClone 0 None; OClone 1 (Some 1); ONextBack 1; ODrop 0] in
+  world_ok w0 /\
+  exists w os, run w0 ops = RunOk w os /\
+    option_map (all_events os) (drop_all (w_objs w)) =
+      Some [Hand 1; Cl 2 4; Cl 3 5; Cl 4 6; Drop 6; Hand 5; Drop 2; Drop 3; Drop 4]%Z.
+Proof.
+  split.
+  - apply world_ok_consumer.
+    + repeat constructor; cbn; intuition discriminate.
+    + cbn. intros i H. intuition lia.
+  - eexists. eexists. split; reflexivity.
+Qed.
+
+(** map_by_val on EVERY path (completing, break, continue, return, panic), for every
+    closure behaviour and input: no clone events; the leak list is exactly [leak_of]
+    (the elements after the one on which the body executed break; empty otherwise); a
+    non-empty leak comes with the panic of build; and, counted with multiplicity, every
+    input identity and every value the body produced is handed over or dropped exactly once
+    or is in the leak list *)
+Theorem C15_map_by_val_accounting : forall clo ids,
+  match map_by_val clo ids with
+  | (r, ev, leak) =>
+      cloned ev = [] /\ leak = leak_of clo 0 ids /\ (leak <> [] -> r = MPanicked) /\
+      forall i, occ (accounted ev) i + occ leak i = occ ids i + occ (produced clo 0 ids) i
+  end.
+Proof. exact map_by_val_accounting. Qed.
+Theorem C15_map_by_val_exactly_once : forall clo ids,
+  match map_by_val clo ids with
+  | (r, ev, leak) => Permutation (accounted ev ++ leak) (ids ++ produced clo 0 ids)
+  end.
+Proof. exact map_by_val_exactly_once. Qed.
+Theorem C15_map_by_val_leak_only_after_break : forall clo ids,
+  match map_by_val clo ids with
+  | (r, ev, leak) =>
+      is_suffix leak ids /\
+      (leak <> [] ->
+         r = MPanicked /\
+         exists pre x, ids = pre ++ x :: leak /\ passes clo 0 pre /\ clo (length pre) x = OBreak)
+  end.
+Proof. exact map_by_val_leak_only_after_break. Qed.
+Theorem C15_map_by_val_inputs_exactly_once : forall clo ids,
+  NoDup ids -> (forall i, In i (produced clo 0 ids) -> ~ In i ids) ->
+  match map_by_val clo ids with
+  | (r, ev, leak) =>
+      forall i, In i ids ->
+        (~ In i leak /\ occ (accounted ev) i = 1) \/ (In i leak /\ ~ In i (accounted ev))
+  end.
+Proof. exact map_by_val_inputs_exactly_once. Qed.
+(** from_fn_! on every path: exactly the values the body produced are handed over (when the
+    array is built) or dropped (when the loop was left early), each once *)
+Theorem C15_from_fn_by_val_accounting : forall clo N,
+  match from_fn_by_val clo N with
+  | (r, ev, _) =>
+      cloned ev = [] /\
+      Permutation (accounted ev) (produced (fun k _ => clo k (Z.of_nat k)) 0 (repeat 0%Z N))
+  end.
+Proof. exact from_fn_by_val_accounting. Qed.
+Example C15_map_by_val_break_satisfiable :
+  map_by_val (fun k _ => match k with 0 => OValue 10%Z | 1 => OContinue | 2 => OBreak | _ => OPanic end)
+             [1; 2; 3; 4; 5]%Z
+  = (MPanicked, [Hand 1; Drop 2; Drop 3; Drop 10]%Z, [4; 5]%Z).
+Proof. reflexivity. Qed.
+
 (** destructure_exactly_once: every identity of the destructured value is either dropped by
     the statement or owned by exactly one new variable, as often as it occurs in the value;
     the scope end drops exactly what the variables own *)
@@ -120,6 +272,24 @@ Print Assumptions C15_builder_build.
 Print Assumptions C15_builder_drop.
 Print Assumptions C15_builder_overfull_push.
 Print Assumptions C15_map_by_val_completed.
+Print Assumptions C15_history_initial_consumer.
+Print Assumptions C15_history_initial_empty_consumer.
+Print Assumptions C15_history_initial_builder.
+Print Assumptions C15_history_step_invariant.
+Print Assumptions C15_history_no_ub.
+Print Assumptions C15_history_created_distinct.
+Print Assumptions C15_history_exactly_once.
+Print Assumptions C15_history_exactly_once_count.
+Print Assumptions C15_history_exactly_once_no_forget.
+Print Assumptions C15_history_clone_ids_fresh.
+Print Assumptions C15_history_clone_sources_live.
+Print Assumptions C15_history_satisfiable.
+Print Assumptions C15_map_by_val_accounting.
+Print Assumptions C15_map_by_val_exactly_once.
+Print Assumptions C15_map_by_val_leak_only_after_break.
+Print Assumptions C15_map_by_val_inputs_exactly_once.
+Print Assumptions C15_from_fn_by_val_accounting.
+Print Assumptions C15_map_by_val_break_satisfiable.
 Print Assumptions C15_destructure_exactly_once.
 Print Assumptions C15_destructure_no_duplicates.
 Print Assumptions C15_underscore_dropped_immediately.
